@@ -10,7 +10,7 @@ From BBS Require Import Common.Sx Buffer.Source Buffer.Validate Buffer.Convert B
   Buffer.ConvertProofs Buffer.EHFullCarry Buffer.EHFullPrefix
   Buffer.C09FuelSuffices Buffer.EHNest Buffer.EHNestCarry Buffer.EHNestRules
   Buffer.EHNestMoreRet Buffer.EHNestMoreRoot Buffer.EHNestMoreMon Buffer.EHNestMoreFuel Buffer.EHNestMoreDone
-  Buffer.EHNestMoreTop Run.R09 Run.R16 Run.R16N Run.R16NProofs.
+  Buffer.EHNestMoreTop Buffer.EHNestDepth Buffer.EHNestTooLong Run.R09 Run.R16 Run.R16N Run.R16NProofs.
 Import ListNotations.
 
 (** No duplicated and no skipped range, trees of any depth: when every plain
@@ -198,6 +198,119 @@ Print Assumptions judge_monitor_on_model_only_clause_2_left.
 
 Example judge_monitor_silent_on_the_refutation_witness : mon16Nx w2_inp (run16N w2_inp) = [].
 Proof. vm_compute. reflexivity. Qed.
+
+(** * No depth hypothesis (Buffer/EHNestDepth.v).  [dom16NF] asks [tdepth <= 64] of
+    the decoded tree because [tdepth (dec_tree 64 s) <= 64] is FALSE: the decoder
+    cuts a deeper input with an error buffer, a leaf of depth 1 - the honest bound
+    is [k + 1], and 65 is reached ([deep_tree_has_depth_65]).  The hypothesis is
+    not needed: with depths that count an error buffer / a leaf observed with 0
+    closes as 0 ([tdepth0], [odepth0]) the decoder stays within its fuel, the
+    observed tree of EVERY run (any tree, method, fuel) is no deeper than the input
+    tree, and the monitor's decoder [dec_ctree] is exact on observed trees of
+    refined depth <= its fuel (out of fuel it answers [TLeaf 0], which is what an
+    error buffer is observed as). *)
+Theorem decoder_depth : forall k s,
+  (tdepth0 (dec_tree k s) <= k)%nat /\ (tdepth (dec_tree k s) <= k + 1)%nat.
+Proof. exact dec_tree_depths. Qed.
+Print Assumptions decoder_depth.
+
+Theorem observed_depth_nested : forall H cfg fuel t m,
+  (odepth0 (z_tree (run_tree H cfg fuel t m)) <= tdepth0 t)%nat.
+Proof. exact run_tree_depth0. Qed.
+Print Assumptions observed_depth_nested.
+
+Theorem monitor_decoder_exact : forall o n,
+  (odepth0 o <= n)%nat -> dec_ctree n (enc_otree o) = codes_of o.
+Proof. exact dec_enc_otree0. Qed.
+Print Assumptions monitor_decoder_exact.
+
+(** the monitor on the model's own observation is the monitor on the model's data: EVERY input *)
+Theorem monitor_sees_the_model_run : forall inp,
+  mon16N inp (run16N inp) =
+  monN_data (n_tree (dec_case16N inp)) (n_meth (dec_case16N inp)) (n_obj (dec_case16N inp))
+            (z_data (out16N inp)) (C09FullMonitor.code_of (z_err (out16N inp))) (codes_of (z_tree (out16N inp))).
+Proof. exact mon16N_decoded0. Qed.
+Print Assumptions monitor_sees_the_model_run.
+
+(** [dom16NG] = [dom16NF] without its depth conjunct: no fuel and no depth hypothesis *)
+Theorem dom16NF_is_in_dom16NG : forall inp, dom16NF inp -> dom16NG inp.
+Proof. exact dom16NF_dom16NG. Qed.
+Print Assumptions dom16NF_is_in_dom16NG.
+
+Theorem monitor_on_model_all_but_clause_2_nodepth : forall inp,
+  dom16NG inp -> forall c, In c (mon16N inp (run16N inp)) -> c = 2%Z.
+Proof. exact mon16N_on_model_nodepth. Qed.
+Print Assumptions monitor_on_model_all_but_clause_2_nodepth.
+
+Theorem monitor_silent_on_model_nested_nodepth : forall inp,
+  dom16NG inp ->
+  (is_to_reader (n_meth (dec_case16N inp)) = true ->
+   z_err (out16N inp) <> ECode (g_code (n_cfg (dec_case16N inp)))) ->
+  mon16N inp (run16N inp) = [].
+Proof. exact mon16N_silent_on_model_nodepth. Qed.
+Print Assumptions monitor_silent_on_model_nested_nodepth.
+
+(** non-vacuity: 64 handlers around a buffer; decoded depth 65: outside [dom16NF], inside [dom16NG] *)
+Example deep_tree_has_depth_65 :
+  tdepth (n_tree (dec_case16N deep_inp)) = 65%nat /\ tdepth0 (n_tree (dec_case16N deep_inp)) = 64%nat.
+Proof. exact deep_tree_depth. Qed.
+Example deep_input_in_domain : dom16NG deep_inp /\ ~ dom16NF deep_inp.
+Proof. split; [exact deep_in_domain|exact deep_not_in_old_domain]. Qed.
+Example deep_input_monitor_silent : mon16N deep_inp (run16N deep_inp) = [].
+Proof. exact deep_monitor_silent. Qed.
+
+(** * The judge's monitor is silent on the model, EVERY input of the domain
+    (Buffer/EHNestTooLong.v).  Clause 2 on the model with the ToReader alternative
+    made explicit: when the outermost handler's last answer was the error [x] and
+    the consumer got the validator's own code instead, the object the tree carries
+    is LONGER than the digest's size.  (The casValidatingReader produces its own
+    code for data exceeding bytesRemaining - checked before the error that came
+    with the data - and for a byte obtained by the final io.ReadFull, which drops
+    the error that came with it: in both the bytes handed out, a prefix of the
+    object, exceed the size; its other two uses need io.EOF from the reader, and a
+    root handler passing on io.EOF has not answered with an error.) *)
+Theorem outermost_handler_error_is_result_nested_or_too_long : forall H cfg fuel C inner ans m,
+  tcarry C (NW inner ans) ->
+  z_err (run_tree H cfg fuel (NW inner ans) m) <> EFuel ->
+  match z_tree (run_tree H cfg fuel (NW inner ans) m) with
+  | ONode offs _ _ =>
+      forall x, returnedN ans (length offs) = Some x ->
+        z_err (run_tree H cfg fuel (NW inner ans) m) = ECode x \/
+        (is_to_reader m = true /\ z_err (run_tree H cfg fuel (NW inner ans) m) = ECode (g_code cfg) /\
+         (g_size cfg < lenN C)%N)
+  | OLeaf _ => True
+  end.
+Proof. exact run_tree_clause2_toolong. Qed.
+Print Assumptions outermost_handler_error_is_result_nested_or_too_long.
+
+(** when clause 2 of the raw monitor fires on the model, the exception of [mon16Nx] applies *)
+Theorem clause_2_on_model_is_the_too_long_exception : forall inp,
+  dom16NG inp -> In 2%Z (mon16N inp (run16N inp)) -> toolong16N inp (run16N inp) = true.
+Proof. exact mon16N_clause2_toolong. Qed.
+Print Assumptions clause_2_on_model_is_the_too_long_exception.
+
+(** THE MONITOR THE JUDGE APPLIES IS SILENT ON THE MODEL: every input of [dom16NG]
+    (hence of [dom16NF]), every clause, no condition on how the run ends. *)
+Theorem judge_monitor_silent_on_model_nested_all : forall inp,
+  dom16NG inp -> mon16Nx inp (run16N inp) = [].
+Proof. exact mon16Nx_silent_on_model. Qed.
+Print Assumptions judge_monitor_silent_on_model_nested_all.
+
+Theorem judge_monitor_silent_on_model_nested_all_F : forall inp,
+  dom16NF inp -> mon16Nx inp (run16N inp) = [].
+Proof. exact mon16Nx_silent_on_model_F. Qed.
+Print Assumptions judge_monitor_silent_on_model_nested_all_F.
+
+(** non-vacuity: the refutation witness of the raw monitor is in the domain *)
+Example refutation_witness_in_domain : dom16NG w2_inp.
+Proof.
+  unfold dom16NG. repeat match goal with |- _ /\ _ => split end.
+  - vm_compute. reflexivity.
+  - vm_compute. exact I.
+  - vm_compute. reflexivity.
+  - vm_compute. reflexivity.
+  - intros x E. vm_compute in E. inversion E. lia.
+Qed.
 
 (** * Non-vacuity.  The shrunk witness of seeded change C16-c (corpus/C16N):
     WithErrorHandler(WithErrorHandler(stream failing after 2 bytes, h1), h0);
